@@ -375,7 +375,9 @@ class _VersionIndependentUnmarshaller:
         if PYTHON_VERSION_TRIPLE >= (3, 0) and self.version_tuple < (3, 0):
             string = UnicodeForPython3(unicodestring)
         else:
-            string = unicodestring.decode()
+            # marshal writes text as UTF-8 with "surrogatepass", so that lone
+            # surrogates (e.g. "\ud800") survive.
+            string = unicodestring.decode("utf-8", "surrogatepass")
 
         return self.r_ref(string, save_ref)
 
